@@ -519,6 +519,156 @@ theorem SInv.reach {s0 s : Sys} (h0 : SInv s0) (hr : Reach s0 s) : SInv s := by
   | refl => exact h0
   | step e _ ha ih => exact (ih.step e ha).1
 
+/-! ### shard data = replay of the applied commits -/
+
+theorem applyOp_congr {a b : Store} (h : ∀ k, sget a k = sget b k) (op : Op) :
+    ∀ k, sget (applyOp a op) k = sget (applyOp b op) k := by
+  intro k
+  cases op with
+  | put k0 v => simp only [applyOp, sget_sput, h]
+  | del k0 => simp only [applyOp, sget_sdel, h]
+
+theorem applyOps_congr {a b : Store} (h : ∀ k, sget a k = sget b k) (ops : List Op) :
+    ∀ k, sget (applyOps a ops) k = sget (applyOps b ops) k := by
+  induction ops generalizing a b with
+  | nil => exact h
+  | cons op r ih =>
+    simp only [applyOps, List.foldl] at ih ⊢
+    exact ih (applyOp_congr h op)
+
+theorem replay_append (st : Store) (sh : Nat) (log : List (Nat × Nat × List Op)) (e : Nat × Nat × List Op) :
+    replay st sh (log ++ [e]) = if e.1 = sh then applyOps (replay st sh log) e.2.2 else replay st sh log := by
+  simp [replay, List.foldl_append]
+
+def RInv (stores : List Store) (s : Sys) : Prop :=
+  ∀ sh k, sget (s.storeOf sh) k = sget (replay (stores[sh]?.getD []) sh s.appliedOps) k
+
+theorem RInv.init (stores : List Store) (a b c : Nat) : RInv stores (Sys.init stores a b c) := by
+  intro sh k
+  simp only [Sys.init, Sys.storeOf, replay, List.foldl, List.getElem?_map]
+  cases stores[sh]? <;> rfl
+
+/-- every logged application is also in `applied` -/
+def AOInv (s : Sys) : Prop := ∀ sh tx ops, (sh, tx, ops) ∈ s.appliedOps → (sh, tx) ∈ s.applied
+
+theorem commit_eq (p : Participant) (tx : Nat) :
+    (findPrepared p.prepared tx = none ∧ p.commit tx = (p, false)) ∨
+    (∃ pt, findPrepared p.prepared tx = some pt ∧ (p.commit tx).2 = true ∧
+      (p.commit tx).1.store = applyOps p.store pt.ops) := by
+  unfold Participant.commit
+  cases h : findPrepared p.prepared tx with
+  | none => exact Or.inl ⟨rfl, rfl⟩
+  | some pt => exact Or.inr ⟨pt, rfl, rfl, rfl⟩
+
+theorem RInv.step {stores : List Store} {s : Sys} (hS : SInv s) (hR : RInv stores s) (hA : AOInv s)
+    (e : Ev) (ha : s.inAlphabet e = true) : RInv stores (s.step e) ∧ AOInv (s.step e) := by
+  cases e with
+  | begin shards ops sim =>
+    simp only [Sys.step, Sys.stepR]
+    split
+    · exact ⟨hR, hA⟩
+    · exact ⟨hR, hA⟩
+  | sweep => exact ⟨hR, hA⟩
+  | tick d => exact ⟨hR, hA⟩
+  | coordCommit tx =>
+    simp only [Sys.step, Sys.stepR]
+    split
+    · exact ⟨hR, hA⟩
+    · exact ⟨hR, hA⟩
+    · exact ⟨hR, hA⟩
+  | coordAbort tx =>
+    simp only [Sys.step, Sys.stepR]
+    split
+    · exact ⟨hR, hA⟩
+    · exact ⟨hR, hA⟩
+    · exact ⟨hR, hA⟩
+  | cleanupStale sh t => simp [Sys.inAlphabet] at ha
+  | recover sh t => simp [Sys.inAlphabet] at ha
+  | deliver i =>
+    simp only [Sys.step, Sys.stepR]
+    split
+    · exact ⟨hR, hA⟩
+    · rename_i m hm
+      cases m with
+      | vote tx sh v =>
+        simp only [Sys.deliverMsg]
+        split
+        · exact ⟨hR, hA⟩
+        · exact ⟨hR, hA⟩
+      | prepare tx sh ops =>
+        simp only [Sys.deliverMsg]
+        split
+        · exact ⟨hR, hA⟩
+        · rename_i p hp
+          refine ⟨?_, hA⟩
+          intro sh' k
+          have := hR sh' k
+          simp only [Sys.storeOf] at this ⊢
+          rw [← this]
+          exact sget_store_set hp (fun k => by rw [prepare_store]) sh' k
+      | abort tx sh =>
+        simp only [Sys.deliverMsg]
+        split
+        · exact ⟨hR, hA⟩
+        · rename_i p hp
+          have hpm : p ∈ s.parts := List.mem_of_getElem? hp
+          refine ⟨?_, hA⟩
+          intro sh' k
+          have := hR sh' k
+          simp only [Sys.storeOf] at this ⊢
+          rw [← this]
+          exact sget_store_set hp ((hS p hpm).abort tx).2 sh' k
+      | commit tx sh =>
+        simp only [Sys.deliverMsg]
+        split
+        · exact ⟨hR, hA⟩
+        · rename_i p hp
+          rcases commit_eq p tx with ⟨hf, hc⟩ | ⟨pt, hf, hc2, hcs⟩
+          · rw [hf, hc]
+            refine ⟨?_, hA⟩
+            intro sh' k
+            have := hR sh' k
+            simp only [Sys.storeOf] at this ⊢
+            rw [← this]
+            exact sget_store_set hp (fun _ => rfl) sh' k
+          · rw [hf, hc2]
+            constructor
+            · intro sh' k
+              simp only [Sys.storeOf]
+              rw [replay_append, getElem?_set']
+              by_cases hc : sh = sh'
+              · subst hc
+                have hlt : sh < s.parts.length := by
+                  rcases Nat.lt_or_ge sh s.parts.length with h1 | h1
+                  · exact h1
+                  · rw [List.getElem?_eq_none h1] at hp; cases hp
+                rw [if_pos ⟨rfl, hlt⟩, if_pos rfl]
+                show sget (p.commit tx).1.store k = _
+                rw [hcs]
+                apply applyOps_congr
+                intro k'
+                have := hR sh k'
+                simp only [Sys.storeOf, hp] at this
+                exact this
+              · rw [if_neg (fun h => hc h.1), if_neg hc]
+                have := hR sh' k
+                simp only [Sys.storeOf] at this
+                exact this
+            · intro sh' tx' ops' hx
+              simp only [if_true]
+              rcases List.mem_append.1 hx with h1 | h1
+              · exact List.mem_append.2 (Or.inl (hA sh' tx' ops' h1))
+              · simp only [List.mem_singleton, Prod.mk.injEq] at h1
+                apply List.mem_append.2; right
+                simp [h1.1, h1.2.1]
+
+theorem RInv.reach {stores : List Store} {a b c : Nat} {s : Sys}
+    (hr : Reach (Sys.init stores a b c) s) : RInv stores s ∧ AOInv s := by
+  induction hr with
+  | refl => exact ⟨RInv.init stores a b c, by intro _ _ _ h; simp [Sys.init] at h⟩
+  | step e hr' ha ih =>
+    exact RInv.step ((SInv.init stores a b c).reach hr') ih.1 ih.2 e ha
+
 /-- `es` are events of the alphabet none of which delivers a commit message -/
 def Sys.quiet (s : Sys) : List Ev → Bool
   | [] => true
